@@ -315,6 +315,7 @@ class RTCPeerConnection(AsyncIOEventEmitter):
         self.__transceivers: list[RTCRtpTransceiver] = []
 
         self.__closeTask: Optional[asyncio.Task] = None
+        self.__connectTasks: set[asyncio.Future[None]] = set()
         self.__connectionState = "new"
         self.__iceConnectionState = "new"
         self.__iceGatheringState = "new"
@@ -519,6 +520,12 @@ class RTCPeerConnection(AsyncIOEventEmitter):
             return
         self.__isClosed = asyncio.Future()
         self.__setSignalingState("closed")
+
+        # stop connecting
+        connectTasks = list(self.__connectTasks)
+        for task in connectTasks:
+            task.cancel()
+        await asyncio.gather(*connectTasks, return_exceptions=True)
 
         # stop senders / receivers
         for transceiver in self.__transceivers:
@@ -860,6 +867,7 @@ class RTCPeerConnection(AsyncIOEventEmitter):
 
         # gather candidates
         await self.__gather()
+        self.__assertNotClosed()
         for i, media in enumerate(description.media):
             if media.kind in ["audio", "video"]:
                 transceiver = self.__getTransceiverByMLineIndex(i)
@@ -868,7 +876,7 @@ class RTCPeerConnection(AsyncIOEventEmitter):
                 add_transport_description(media, self.__sctp.transport)
 
         # connect
-        asyncio.ensure_future(self.__connect())
+        self.__startConnect()
 
         # replace description
         if description.type == "answer":
@@ -1051,13 +1059,14 @@ class RTCPeerConnection(AsyncIOEventEmitter):
             for iceTransport, media in iceCandidates.items()
         ]
         await asyncio.gather(*coros)
+        self.__assertNotClosed()
 
         # FIXME: in aiortc 2.0.0 emit RTCTrackEvent directly
         for event in trackEvents:
             self.emit("track", event.track)
 
         # connect
-        asyncio.ensure_future(self.__connect())
+        self.__startConnect()
 
         # update signaling state
         if description.type == "offer":
@@ -1104,6 +1113,11 @@ class RTCPeerConnection(AsyncIOEventEmitter):
                     await self.__sctp.start(
                         self.__sctpRemoteCaps, self.__sctpRemotePort
                     )
+
+    def __startConnect(self) -> None:
+        task = asyncio.ensure_future(self.__connect())
+        self.__connectTasks.add(task)
+        task.add_done_callback(self.__connectTasks.discard)
 
     async def __gather(self) -> None:
         coros = map(lambda t: t.iceGatherer.gather(), self.__iceTransports)
